@@ -11,6 +11,7 @@
 // Description:
 
 #include "givaro/givrational.h"
+#include "givaro/giverror.h"
 
 namespace Givaro {
 
@@ -56,6 +57,8 @@ namespace Givaro {
         }
         else
         {
+            if (isZero(x.num)) // 0^y, y < 0: as operator/ does
+                throw GivMathDivZero("*** division by zero, in pow(const Rational&, negative exponent)") ;
             r.den = pow(x.num, (int64_t) -y);
             r.num = pow(x.den, (int64_t) -y);
             if (sign(r.den) < 0)
